@@ -5,6 +5,7 @@ package main
 import (
 	"fmt"
 	"go/types"
+	"math/big"
 	"strings"
 
 	"golang.org/x/tools/go/ssa"
@@ -19,6 +20,7 @@ type Val struct {
 	Tup []Val      // KTuple
 	Fn  *Closure   // KFunc
 	Dyn *Val       // KIface: dynamic value
+	Lo, Hi *big.Int // optional statically known bounds of an integer value (tighter than its type)
 }
 
 type Closure struct {
@@ -254,5 +256,82 @@ func plus(a, b string) string {
 	if a == "0" {
 		return b
 	}
+	if x, ok := litVal(a); ok {
+		if y, ok := litVal(b); ok {
+			return lit(fmt.Sprint(x + y))
+		}
+	}
 	return "(+ " + a + " " + b + ")"
+}
+
+// splitSexp splits "(op a b c)" into its top-level parts (op, a, b, c).
+func splitSexp(s string) []string {
+	if len(s) < 2 || s[0] != '(' || s[len(s)-1] != ')' {
+		return nil
+	}
+	s = s[1 : len(s)-1]
+	var parts []string
+	d := 0
+	start := -1
+	for i := 0; i < len(s); i++ {
+		c := s[i]
+		switch {
+		case c == '(':
+			if d == 0 && start < 0 {
+				start = i
+			}
+			d++
+		case c == ')':
+			d--
+			if d == 0 {
+				parts = append(parts, s[start:i+1])
+				start = -1
+			}
+		case c == ' ' || c == '\n' || c == '\t':
+			if d == 0 && start >= 0 {
+				parts = append(parts, s[start:i])
+				start = -1
+			}
+		default:
+			if d == 0 && start < 0 {
+				start = i
+			}
+		}
+	}
+	if start >= 0 {
+		parts = append(parts, s[start:])
+	}
+	return parts
+}
+
+func sliceField(s string, idx int, acc string) string {
+	if strings.HasPrefix(s, "(mk_slice ") {
+		if p := splitSexp(s); len(p) == 5 {
+			return p[idx]
+		}
+	}
+	return "(" + acc + " " + s + ")"
+}
+
+func litVal(s string) (int64, bool) {
+	if !isLit(s) {
+		return 0, false
+	}
+	var v int64
+	if _, err := fmt.Sscan(s, &v); err != nil {
+		return 0, false
+	}
+	return v, true
+}
+
+func minus(a, b string) string {
+	if b == "0" {
+		return a
+	}
+	if x, ok := litVal(a); ok {
+		if y, ok := litVal(b); ok {
+			return lit(fmt.Sprint(x - y))
+		}
+	}
+	return "(- " + a + " " + b + ")"
 }
